@@ -1,4 +1,5 @@
 import MW.Staking.Effects
+import MW.Staking.Interface
 /-!
 # C14 — Only well-formed configuration is ever accepted; updates are sectional
 
@@ -289,5 +290,15 @@ theorem instantiate_config (env : Env) (info : Info) (msg : InstantiateMsg) (s :
 /-- regression witnesses: a signed channel id is rejected, a plain one accepted -/
 example : channelOk "channel-+5" = false ∧ channelOk "channel-5" = true ∧ channelOk "channel-" = false
     ∧ channelOk "channel-007" = true := by decide
+
+/-- the statements of this file quantify over every message the staking contract accepts: the `ExecuteMsg` the source
+declares (table regenerated from /repo's `msg.rs` on every run) has exactly the variants, fields and types of the
+model's `ExecMsg`, and the contract exports exactly the modelled entry points.  A message or entry point added to the
+source — which no generated history would exercise — breaks this theorem -/
+theorem messages_are_the_modelled_ones :
+    MW.Generated.Interface.staking_execute = MW.Interface.model_staking_execute
+    ∧ (∀ m : MW.Staking.ExecMsg, MW.Interface.execTag m ∈ MW.Interface.names MW.Generated.Interface.staking_execute)
+    ∧ MW.Generated.Interface.staking_entry_points = ["execute", "instantiate", "migrate", "query", "reply", "sudo"] :=
+  ⟨MW.Interface.staking_execute_eq, MW.Interface.staking_execute_covered.2, MW.Interface.staking_entry_points_eq⟩
 
 end MW.Props.C14
